@@ -101,11 +101,44 @@ def apply(modules) -> dict:
     _constants(modules, known, stats)
     _namedtuples(modules, known, stats)
     stats["unrolled_attribute_loops"] = _unroll_attribute_loops(modules)
+    stats["expanded_option_decorators"] = _expand_option_decorators(modules)
     stats["named_conditions"] = _named_conditions(modules, known)
     return stats
 
 
 # ---------------------------------------------------------------------------------------------------------------- N4
+def _simple_value(e) -> bool:
+    if isinstance(e, ast.Constant):
+        return isinstance(e.value, (str, int, float, bool, type(None)))
+    if isinstance(e, ast.Name):
+        return True
+    return isinstance(e, ast.Attribute) and _simple_value(e.value)
+
+
+def _literal_rows(st, consts):
+    """the iterations of `for v in (c1, c2, ..)` / `for a, b in ((c1, e1), (c2, e2), ..)` over a literal table of at most 8 rows (or a module-level tuple of
+    strings bound once) as a list of {loop variable: expression}; None if the loop is not of that kind"""
+    it = st.iter
+    if isinstance(it, ast.Name) and it.id in consts and isinstance(st.target, ast.Name):
+        it = consts[it.id]
+    if not isinstance(it, (ast.Tuple, ast.List)) or not 1 <= len(it.elts) <= 8:
+        return None
+    if isinstance(st.target, ast.Name):
+        if all(isinstance(e, ast.Constant) and isinstance(e.value, str) for e in it.elts):
+            return [{st.target.id: e} for e in it.elts]
+        return None
+    if isinstance(st.target, ast.Tuple) and all(isinstance(t, ast.Name) for t in st.target.elts) and len({t.id for t in st.target.elts}) == len(st.target.elts):
+        rows = []
+        for e in it.elts:
+            if not isinstance(e, ast.Tuple) or len(e.elts) != len(st.target.elts) or not all(_simple_value(x) for x in e.elts):
+                return None
+            if not any(isinstance(x, ast.Constant) and isinstance(x.value, str) for x in e.elts):
+                return None
+            rows.append({t.id: x for t, x in zip(st.target.elts, e.elts)})
+        return rows
+    return None
+
+
 def _unroll_attribute_loops(modules) -> int:
     """N4: `for name in ("role", "email", "phone"): v = getattr(obj, name) ...` - a loop over a literal tuple / list of at most 8 string constants whose body
     reads or writes attributes through the loop variable (getattr / setattr / hasattr) is written out once per constant, `getattr(o, "c")` becomes `o.c`
@@ -113,6 +146,7 @@ def _unroll_attribute_loops(modules) -> int:
     import copy as _copy
 
     count = 0
+    consts = {}
 
     def unroll(block):
         nonlocal count
@@ -127,18 +161,34 @@ def _unroll_attribute_loops(modules) -> int:
                 unroll(h.body)
             if isinstance(st, (ast.FunctionDef, ast.AsyncFunctionDef, ast.ClassDef)):
                 unroll(st.body)
-            if isinstance(st, ast.For) and isinstance(st.target, ast.Name) and not st.orelse and isinstance(st.iter, (ast.Tuple, ast.List)) and 1 <= len(st.iter.elts) <= 8 and all(isinstance(e, ast.Constant) and isinstance(e.value, str) for e in st.iter.elts):
-                var = st.target.id
-                dyn = [c for b in st.body for c in ast.walk(b) if isinstance(c, ast.Call) and isinstance(c.func, ast.Name) and c.func.id in ("getattr", "setattr", "hasattr") and len(c.args) >= 2 and isinstance(c.args[1], ast.Name) and c.args[1].id == var]
+            rows = _literal_rows(st, consts) if isinstance(st, ast.For) and not st.orelse else None
+            if rows:
+                vars_ = set(rows[0])
+                dyn = [c for b in st.body for c in ast.walk(b) if isinstance(c, ast.Call) and isinstance(c.func, ast.Name) and c.func.id in ("getattr", "setattr", "hasattr") and len(c.args) >= 2 and isinstance(c.args[1], ast.Name) and c.args[1].id in vars_]
+                # a table of (name, value) pairs: the body writes / reads `x.attrib[name]`, `x[name]` with the loop variable as key
+                dyn += [c for b in st.body for c in ast.walk(b) if isinstance(c, ast.Subscript) and isinstance(c.slice, ast.Name) and c.slice.id in vars_ and len(vars_) > 1]
                 ctrl = [c for b in st.body for c in ast.walk(b) if isinstance(c, (ast.Break, ast.Continue, ast.Return, ast.Yield, ast.YieldFrom))]
-                rebinds = [c for b in st.body for c in ast.walk(b) if isinstance(c, ast.Name) and c.id == var and isinstance(c.ctx, (ast.Store, ast.Del))]
+                rebinds = [c for b in st.body for c in ast.walk(b) if isinstance(c, ast.Name) and c.id in vars_ and isinstance(c.ctx, (ast.Store, ast.Del))]
+                # values that are not constants are read when the table is built; written out they are read in each copy of the body: the same
+                # only if the body cannot change them (no calls, no store to a name or attribute the values mention)
+                nonconst = [e for r in rows for e in r.values() if not isinstance(e, ast.Constant)]
+                if nonconst:
+                    mentioned = {x.id for e in nonconst for x in ast.walk(e) if isinstance(x, ast.Name)} | {x.attr for e in nonconst for x in ast.walk(e) if isinstance(x, ast.Attribute)}
+                    for b in st.body:
+                        for c in ast.walk(b):
+                            if isinstance(c, (ast.Call, ast.Await, ast.NamedExpr)) and not (isinstance(c, ast.Call) and isinstance(c.func, ast.Name) and c.func.id in ("getattr", "hasattr", "isinstance", "len", "str")):
+                                ctrl.append(c)
+                            if isinstance(c, ast.Name) and isinstance(c.ctx, (ast.Store, ast.Del)) and c.id in mentioned:
+                                ctrl.append(c)
+                            if isinstance(c, ast.Attribute) and isinstance(c.ctx, (ast.Store, ast.Del)) and c.attr in mentioned:
+                                ctrl.append(c)
                 if dyn and not ctrl and not rebinds:
                     new = []
-                    for e in st.iter.elts:
+                    for row in rows:
                         class _S(ast.NodeTransformer):
                             def visit_Name(self, node):
-                                if node.id == var and isinstance(node.ctx, ast.Load):
-                                    return ast.copy_location(ast.Constant(value=e.value), node)
+                                if node.id in row and isinstance(node.ctx, ast.Load):
+                                    return ast.copy_location(_copy.deepcopy(row[node.id]), node)
                                 return node
 
                             def visit_Call(self, node):
@@ -163,7 +213,170 @@ def _unroll_attribute_loops(modules) -> int:
             i += 1
 
     for m in modules.values():
+        # module-level tables of strings bound exactly once (`_NAMES = ("role", "email", "phone")`) may be named as the iterable
+        consts.clear()
+        bound = {}
+        for n in ast.walk(m.tree):
+            if isinstance(n, ast.Name) and isinstance(n.ctx, (ast.Store, ast.Del)):
+                bound[n.id] = bound.get(n.id, 0) + 1
+        for stm in m.tree.body:
+            if isinstance(stm, ast.Assign) and len(stm.targets) == 1 and isinstance(stm.targets[0], ast.Name) and bound.get(stm.targets[0].id) == 1 and isinstance(stm.value, ast.Tuple):
+                if stm.value.elts and all(isinstance(e, ast.Constant) and isinstance(e.value, str) for e in stm.value.elts):
+                    consts[stm.targets[0].id] = stm.value
         unroll(m.tree.body)
+    if count:
+        from .model import set_parents
+
+        for m in modules.values():
+            ast.fix_missing_locations(m.tree)
+            set_parents(m.tree)
+    return count
+
+
+# ---------------------------------------------------------------------------------------------------------------- N5
+def _body_without_docstring(fn):
+    b = fn.body
+    if b and isinstance(b[0], ast.Expr) and isinstance(b[0].value, ast.Constant) and isinstance(b[0].value.value, str):
+        b = b[1:]
+    return b
+
+
+def _is_click_declaration(e) -> bool:
+    return isinstance(e, ast.Call) and isinstance(e.func, ast.Attribute) and isinstance(e.func.value, ast.Name) and e.func.value.id == "click" and e.func.attr in ("option", "argument", "version_option", "help_option", "pass_context")
+
+
+def _combinator_order(fn):
+    """`def group(*ds): def deco(f): for d in reversed(ds): f = d(f); return f; return deco` - a function that folds the decorators it is given over the
+    decorated function and does nothing else.  Returns +1 if the first listed decorator ends up outermost (as if stacked top to bottom in the listed
+    order), -1 for the opposite order, None if the function is not of that shape"""
+    a = fn.args
+    if a.args or a.posonlyargs or a.kwonlyargs or a.kwarg or a.vararg is None or fn.decorator_list:
+        return None
+    v = a.vararg.arg
+    body = _body_without_docstring(fn)
+    if len(body) != 2 or not isinstance(body[0], ast.FunctionDef) or not isinstance(body[1], ast.Return) or not isinstance(body[1].value, ast.Name) or body[1].value.id != body[0].name:
+        return None
+    inner = body[0]
+    ia = inner.args
+    if len(ia.args) != 1 or ia.posonlyargs or ia.kwonlyargs or ia.kwarg or ia.vararg or ia.defaults or inner.decorator_list:
+        return None
+    f = ia.args[0].arg
+    ib = _body_without_docstring(inner)
+    if len(ib) != 2 or not isinstance(ib[0], ast.For) or ib[0].orelse or not isinstance(ib[1], ast.Return) or not isinstance(ib[1].value, ast.Name) or ib[1].value.id != f:
+        return None
+    loop = ib[0]
+    if not isinstance(loop.target, ast.Name) or len(loop.body) != 1:
+        return None
+    d = loop.target.id
+    st = loop.body[0]
+    if not (isinstance(st, ast.Assign) and len(st.targets) == 1 and isinstance(st.targets[0], ast.Name) and st.targets[0].id == f and ast.unparse(st.value) == f"{d}({f})"):
+        return None
+    it = ast.unparse(loop.iter).replace(" ", "")
+    if it in (f"reversed({v})", f"{v}[::-1]"):
+        return 1
+    if it == v:
+        return -1
+    return None
+
+
+def _expand_option_decorators(modules) -> int:
+    """N5: `@creator_info_options()` where the module-level function does nothing but return click declarations (directly, through another such function,
+    or combined by a function that only folds decorators over the command) is written out as the stacked `@click.option(..)` lines it stands for,
+    so that the commands' parameters are declared where the rules (and click) look for them"""
+    count = 0
+    for m in modules.values():
+        top, bound = {}, {}
+        for n in ast.walk(m.tree):
+            if isinstance(n, ast.Name) and isinstance(n.ctx, (ast.Store, ast.Del)):
+                bound[n.id] = bound.get(n.id, 0) + 1
+            if isinstance(n, (ast.FunctionDef, ast.AsyncFunctionDef, ast.ClassDef)):
+                bound[n.name] = bound.get(n.name, 0) + 1
+        for st in m.tree.body:
+            if isinstance(st, ast.FunctionDef) and bound.get(st.name) == 1:
+                top[st.name] = st
+        tables = {}
+        for st in m.tree.body:
+            if isinstance(st, ast.Assign) and len(st.targets) == 1 and isinstance(st.targets[0], ast.Name) and bound.get(st.targets[0].id) == 1 and isinstance(st.value, (ast.Tuple, ast.List)) and _literal(st.value):
+                tables[st.targets[0].id] = st.value
+
+        def expand(e, depth=0):
+            if depth > 6:
+                return None
+            if _is_click_declaration(e):
+                return [e]
+            if isinstance(e, ast.Call) and isinstance(e.func, ast.Name) and e.func.id in top:
+                fn = top[e.func.id]
+                order = _combinator_order(fn)
+                if order is not None:
+                    if e.keywords:
+                        return None
+                    out = []
+                    for a in e.args:
+                        r = expand_list(a.value, depth + 1) if isinstance(a, ast.Starred) else expand(a, depth + 1)
+                        if r is None:
+                            return None
+                        out.extend(r)
+                    return out if order == 1 else out[::-1]
+                fa = fn.args
+                if e.args or e.keywords or fa.args or fa.posonlyargs or fa.kwonlyargs or fa.vararg or fa.kwarg or fn.decorator_list:
+                    return None
+                body = _body_without_docstring(fn)
+                if len(body) == 1 and isinstance(body[0], ast.Return) and body[0].value is not None:
+                    return expand(body[0].value, depth + 1)
+            return None
+
+        def expand_list(e, depth):
+            if isinstance(e, (ast.List, ast.Tuple)):
+                out = []
+                for x in e.elts:
+                    r = expand(x, depth + 1)
+                    if r is None:
+                        return None
+                    out.extend(r)
+                return out
+            if isinstance(e, (ast.ListComp, ast.GeneratorExp)) and len(e.generators) == 1 and not e.generators[0].ifs and not e.generators[0].is_async:
+                g = e.generators[0]
+                it = g.iter
+                if isinstance(it, ast.Name) and it.id in tables:
+                    it = tables[it.id]
+                if not isinstance(it, (ast.Tuple, ast.List)) or not _literal(it) or len(it.elts) > 32:
+                    return None
+                out = []
+                for row in it.elts:
+                    if isinstance(g.target, ast.Name):
+                        sub = {g.target.id: row}
+                    elif isinstance(g.target, ast.Tuple) and all(isinstance(t, ast.Name) for t in g.target.elts) and isinstance(row, (ast.Tuple, ast.List)) and len(row.elts) == len(g.target.elts):
+                        sub = {t.id: x for t, x in zip(g.target.elts, row.elts)}
+                    else:
+                        return None
+
+                    class _S(ast.NodeTransformer):
+                        def visit_Name(self, node):
+                            if node.id in sub and isinstance(node.ctx, ast.Load):
+                                return ast.copy_location(_copy(sub[node.id]), node)
+                            return node
+
+                    r = expand(_S().visit(_copy(e.elt)), depth + 1)
+                    if r is None:
+                        return None
+                    out.extend(r)
+                return out
+            return None
+
+        for fn in [n for n in ast.walk(m.tree) if isinstance(n, ast.FunctionDef) and n.decorator_list]:
+            new = []
+            changed = False
+            for d in fn.decorator_list:
+                r = None if _is_click_declaration(d) else expand(d)
+                if r is None:
+                    new.append(d)
+                else:
+                    for x in r:
+                        new.append(ast.copy_location(_copy(x), d))
+                    changed = True
+            if changed:
+                fn.decorator_list = new
+                count += 1
     if count:
         from .model import set_parents
 
